@@ -79,6 +79,8 @@ def strategy(draw, tier="quick"):
         case["dcd_fixed"] = draw(st.sampled_from(["half", "most", "one"]))        # fixed atoms as CHARMM / NAMD store them (later frames hold the free atoms only)
     if fmt == "dcd" and draw(st.integers(0, 2)) == 0:
         case["dcd_nset"] = draw(st.sampled_from(["zero", "stale"]))     # header frame count never updated (killed writer)
+    if fmt == "lammpstrj" and draw(st.booleans()):
+        case["rows"] = draw(st.sampled_from(["shuffled", "molcol"]))    # a dump with its records unsorted / with a molecule-id column
     if fmt == "trr" and draw(st.booleans()):
         case["trr_vf"] = draw(st.sampled_from(["v", "f", "vf"]))       # velocity / force blocks as GROMACS writes them
     if draw(st.integers(0, 2)) == 0:
@@ -199,7 +201,7 @@ def run_case(case):
         na_file = None
     else:
         c02._trim_cache()
-        fn, tr, _full = c02._file(fmt, case["nf"], case["na"], case["cell"], case["seed"], trr_vf=case.get("trr_vf"),
+        fn, tr, _full = c02._file(fmt, case["nf"], case["na"], case["cell"], case["seed"], rows=case.get("rows"), trr_vf=case.get("trr_vf"),
                                   dcd_fixed=case.get("dcd_fixed", False), dcd_nset=case.get("dcd_nset"))
     atoms = case.get("atoms")
     with warnings.catch_warnings():
